@@ -118,6 +118,60 @@ Seeds == {
 }
 
 -----------------------------------------------------------------------------
+(* Request headers a client may send although no seed needs them: the       *)
+(* registered request header fields with the values their own grammar       *)
+(* enumerates (every Sec-Fetch-Dest destination, every credentials scheme   *)
+(* with and without parameters, ...).  A server that starts to look at one  *)
+(* of them must keep every property for every value.  Used unmutated.       *)
+DictHeaders == {
+  <<"Accept", "*/*">>, <<"Accept", "image/avif,image/webp,*/*;q=0.8">>, <<"Accept", "application/json">>, <<"Accept", "">>,
+  <<"Accept-Charset", "utf-8, iso-8859-1;q=0.5">>, <<"Accept-Encoding", "gzip">>, <<"Accept-Encoding", "identity">>, <<"Accept-Encoding", "br;q=1.0, gzip;q=0.8, *;q=0.1">>,
+  <<"Accept-Encoding", "">>, <<"Accept-Language", "*">>, <<"Accept-Language", "de-CH, de;q=0.9">>,
+  <<"Authorization", "Basic dXNlcjpwYXNz">>, <<"Authorization", "Bearer abc.def.ghi">>, <<"Authorization", "Negotiate">>, <<"Authorization", "0123456789abcdef">>,
+  <<"Authorization", "Digest username=\"u\", realm=\"r\", nonce=\"n\", uri=\"/a.txt\", response=\"0\"">>, <<"Authorization", "">>, <<"Authorization", " ">>, <<"Authorization", "Basic">>,
+  <<"Proxy-Authorization", "Basic dXNlcjpwYXNz">>, <<"Proxy-Authorization", "x">>, <<"Proxy-Authorization", "">>,
+  <<"Cache-Control", "no-cache">>, <<"Cache-Control", "no-store">>, <<"Cache-Control", "only-if-cached">>, <<"Cache-Control", "max-stale=5, min-fresh=1">>,
+  <<"Connection", "close">>, <<"Connection", "keep-alive">>, <<"Connection", "Upgrade">>, <<"Connection", "keep-alive, Upgrade, TE">>,
+  <<"Cookie", "sid=abc; theme=dark">>, <<"Cookie", "a">>, <<"Cookie", "=">>, <<"Cookie", "">>, <<"Content-Encoding", "gzip">>, <<"Content-Length", "0">>,
+  <<"Content-Type", "text/plain; charset=utf-8">>, <<"Content-MD5", "Q2hlY2sgSW50ZWdyaXR5IQ==">>,
+  <<"Date", "Tue, 15 Nov 1994 08:12:31 GMT">>, <<"Expect", "100-continue">>, <<"Expect", "x">>, <<"Forwarded", "for=192.0.2.60;proto=http;by=203.0.113.43">>,
+  <<"From", "user@example.com">>, <<"If-Match", "*">>, <<"If-Match", "\"abc\"">>, <<"If-None-Match", "*">>, <<"If-None-Match", "W/\"abc\"">>,
+  <<"If-Modified-Since", "Sat, 01 Jan 2022 00:00:00 GMT">>, <<"If-Modified-Since", "Fri, 01 Jan 2100 00:00:00 GMT">>, <<"If-Modified-Since", "0">>, <<"If-Modified-Since", "yesterday">>,
+  <<"If-Unmodified-Since", "Sat, 01 Jan 2022 00:00:00 GMT">>, <<"If-Unmodified-Since", "Thu, 01 Jan 1970 00:00:00 GMT">>,
+  <<"If-Range", "\"abc\"">>, <<"If-Range", "Sat, 01 Jan 2022 00:00:00 GMT">>, <<"Max-Forwards", "0">>, <<"Origin", "null">>, <<"Pragma", "no-cache">>,
+  <<"Prefer", "return=minimal">>, <<"Priority", "u=1, i">>, <<"Purpose", "prefetch">>, <<"Sec-Purpose", "prefetch;prerender">>, <<"Range", "items=0-1">>,
+  <<"Referer", "https://example.com/x?y#z">>, <<"Referer", "about:blank">>, <<"Referer", "">>,
+  <<"Sec-Fetch-Dest", "audio">>, <<"Sec-Fetch-Dest", "audioworklet">>, <<"Sec-Fetch-Dest", "document">>, <<"Sec-Fetch-Dest", "embed">>, <<"Sec-Fetch-Dest", "empty">>,
+  <<"Sec-Fetch-Dest", "fencedframe">>, <<"Sec-Fetch-Dest", "font">>, <<"Sec-Fetch-Dest", "frame">>, <<"Sec-Fetch-Dest", "iframe">>, <<"Sec-Fetch-Dest", "image">>,
+  <<"Sec-Fetch-Dest", "manifest">>, <<"Sec-Fetch-Dest", "object">>, <<"Sec-Fetch-Dest", "paintworklet">>, <<"Sec-Fetch-Dest", "report">>, <<"Sec-Fetch-Dest", "script">>,
+  <<"Sec-Fetch-Dest", "serviceworker">>, <<"Sec-Fetch-Dest", "sharedworker">>, <<"Sec-Fetch-Dest", "style">>, <<"Sec-Fetch-Dest", "track">>, <<"Sec-Fetch-Dest", "video">>,
+  <<"Sec-Fetch-Dest", "webidentity">>, <<"Sec-Fetch-Dest", "worker">>, <<"Sec-Fetch-Dest", "xslt">>, <<"Sec-Fetch-Dest", "IMAGE">>, <<"Sec-Fetch-Dest", "">>,
+  <<"Sec-Fetch-Mode", "cors">>, <<"Sec-Fetch-Mode", "navigate">>, <<"Sec-Fetch-Mode", "no-cors">>, <<"Sec-Fetch-Mode", "same-origin">>, <<"Sec-Fetch-Mode", "websocket">>,
+  <<"Sec-Fetch-Site", "cross-site">>, <<"Sec-Fetch-Site", "same-origin">>, <<"Sec-Fetch-Site", "same-site">>, <<"Sec-Fetch-Site", "none">>, <<"Sec-Fetch-User", "?1">>,
+  <<"Sec-GPC", "1">>, <<"Sec-WebSocket-Key", "dGhlIHNhbXBsZSBub25jZQ==">>, <<"Sec-WebSocket-Version", "13">>, <<"Service-Worker", "script">>,
+  <<"Service-Worker-Navigation-Preload", "true">>, <<"TE", "trailers">>, <<"TE", "gzip">>, <<"Trailer", "Expires">>,
+  <<"Transfer-Encoding", "chunked">>, <<"Transfer-Encoding", "gzip, chunked">>, <<"Transfer-Encoding", "identity">>,
+  <<"Upgrade", "h2c">>, <<"Upgrade", "websocket">>, <<"HTTP2-Settings", "AAMAAABkAARAAAAAAAIAAAAA">>, <<"User-Agent", "curl/8.0.1">>, <<"User-Agent", "">>,
+  <<"Via", "1.1 proxy.example">>, <<"Want-Digest", "sha-256">>, <<"Keep-Alive", "timeout=5, max=100">>, <<"Proxy-Connection", "keep-alive">>,
+  <<"X-Forwarded-For", "10.0.0.1, 10.0.0.2">>, <<"X-Forwarded-Host", "evil.example">>, <<"X-Forwarded-Proto", "https">>, <<"X-Real-IP", "10.0.0.9">>,
+  <<"X-Requested-With", "XMLHttpRequest">>, <<"X-HTTP-Method-Override", "DELETE">>, <<"X-Original-URL", "/docs/">>, <<"X-Rewrite-URL", "/docs/">>,
+  <<"X-Request-ID", "7b3f">>, <<"X-Csrf-Token", "t">>, <<"Early-Data", "1">>, <<"Last-Event-ID", "5">>, <<"DNT", "0">>, <<"Save-Data", "off">>,
+  <<"Accept-CH", "Sec-CH-UA-Arch">>, <<"Vary", "*">>, <<"Host", "other.example">> }
+DictTargets == {"/a.txt", "/nx.html", "/"}
+DictSeeds == {[id |-> "dict", doc |-> Request(m, t, "HTTP/1.1", <<Host, Hdr(h[1], h[2])>>, NoBody)] : h \in DictHeaders, t \in DictTargets, m \in {"GET", "HEAD"}}
+
+(* Feedback: one header line derived by the harness from the server's own   *)
+(* answer to the same request without it (rule "echo": a response header    *)
+(* sent back; rule "if": the conditional header that belongs to a validator *)
+(* of the answer, keeping the suffix the server gave the validator's name;  *)
+(* the n-th candidate).  What a cache or a browser does with every answer.  *)
+Fb(rule, n) == <<[role |-> "hfeedback", k |-> "fb", s |-> rule, n |-> n, b |-> <<>>, p |-> ""]>>
+FeedbackSeeds ==
+    {[id |-> "feedback", doc |-> Request(m, t, "HTTP/1.1", <<Host>> \o hs \o <<Fb(rule, n)>>, NoBody)] :
+        m \in {"GET", "HEAD"}, t \in {"/a.txt", "/docs/", "/nx.html"}, hs \in {<<>>, <<Hdr("Range", "bytes=0-1, 3-4")>>},
+        rule \in {"echo", "if"}, n \in 0..24}
+
+-----------------------------------------------------------------------------
 (* Replacement alphabets by role.  Each entry is a token; `verdict` says     *)
 (* what the request-line grammar (C14) makes of the result when it replaces  *)
 (* a token of a valid request: "reject" = the request can no longer be       *)
